@@ -630,7 +630,7 @@ func runC01(r *ev.Run, rep *ev.ReplayDoc) ev.Summary {
 	env := &gen.Env{}
 	defer env.Cleanup()
 	sum := ev.Summary{
-		Rule: "seeded message specs (0-4 body parts x 0-3 embeds x 0-3 attachments, message/part/file encodings, content byte-string classes, all file sources) rendered with Msg.WriteTo and decoded by the harness' own MIME reader, cross-checked with net/mail+mime/multipart; thorough additionally enumerates every shape (parts 0-3 x embeds 0-2 x attach 0-2) x message encoding. non-trivial = >=2 leaves or non-plain content; distinct by (encodings, sources, content classes) signature",
+		Rule: "seeded message specs (0-4 body parts x 0-3 embeds x 0-3 attachments, message/part/file encodings, content byte-string classes, all file sources, caller-defined boundaries of every length and character class; a share of the messages edited after assembly - files re-ordered / removed / added, parts deleted, replaced or given new content - or rendered before, completely or into a failing destination) rendered with Msg.WriteTo and decoded by the harness' own MIME reader, cross-checked with net/mail+mime/multipart; thorough additionally enumerates every shape (parts 0-3 x embeds 0-2 x attach 0-2) x message encoding. non-trivial = >=2 leaves or non-plain content; distinct by (encodings, sources, content classes) signature",
 		Assumptions: []string{
 			"the harness MIME reader (internal/mimeread) implements RFC 2045/2046/2047 correctly; it is cross-checked against the Go stdlib readers on every message",
 			"expected media type of files without explicit type comes from the same mime.TypeByExtension table the process uses",
